@@ -14,6 +14,7 @@
 //!                         `T::f(&mut self, A) -> R`: the Lean function returns `(new receiver, result)`; `-> Outcome<R>`: it can panic;
 //!                         `::Name(T) -> R`: a tuple-struct constructor
 //!   --transparent S       the one-field struct `S` is represented by its field (its Lean type is given by --type)
+//!   --bits Name=w         the type `Name` is a block of `w` bits (`BitVec w`; `& | ^ ! << >>` are the bit operations)
 //!   --struct S            emit a Lean structure for the struct `S` of the file (PhantomData fields dropped)
 //! a function name may be `Type::name` (a method of another impl of the same file; emitted as `Type.name`)
 use rs2lean::{translate, Options};
@@ -49,6 +50,13 @@ fn main() -> ExitCode {
                 "label" => o.source_label = v,
                 "struct" => o.structs.push(v),
                 "transparent" => o.transparent.push(v),
+                "bits" => match pair(&v).and_then(|(a, b)| b.parse::<u32>().ok().map(|w| (a, w))) {
+                    Some(p) => o.bits.push(p),
+                    None => {
+                        eprintln!("rs2lean: --bits expects Name=width, got `{v}`");
+                        return usage();
+                    }
+                },
                 "prim" => match v.split_once('=') {
                     Some((a, b)) => o.prims.push((a.trim().to_string(), b.trim().to_string())),
                     None => {
